@@ -135,6 +135,8 @@ pub fn gen_c01(rng: &mut Rng, tier: Tier) -> Scenario {
             max_step: *rng.pick(&[0.1, 0.5]),
             convergence: None,
             seed: rng.below(1 << 32),
+            order: 0,
+            prior: None,
         })];
         return sc;
     }
@@ -155,6 +157,8 @@ pub fn gen_c01(rng: &mut Rng, tier: Tier) -> Scenario {
                 max_step: *rng.pick(&[1.0, 1.0, 0.5]),
                 convergence: None,
                 seed: rng.below(1 << 32),
+                order: 0,
+                prior: None,
             }));
         }
         return sc;
@@ -205,6 +209,8 @@ pub fn gen_c01(rng: &mut Rng, tier: Tier) -> Scenario {
             max_step: *rng.pick(&[0.01, 0.1, 0.5, 1.0]),
             convergence: None,
             seed: rng.below(1 << 32),
+            order: 0,
+            prior: None,
         };
         let at = rng.below(sc.chain.len() as u64 + 1) as usize;
         sc.chain.insert(at, Op::Stage(compress));
